@@ -694,7 +694,8 @@ class Interp:
             kind = "none"
         elif isinstance(v, Sc) and v.e is not None and v.e[0] not in ("cmp", "bool", "and", "or", "not") \
                 and not (v.e[0] == "red" and v.e[1] in ("all", "any")):
-            kind = "data-number" if any(x[0] == "in" for x in sym.walk(v.e)) else "number"
+            om = self.cfg.flags.get("order_model") or {}
+            kind = "data-number" if any(x[0] == "in" or (x[0] == "sym" and x[1] in om) for x in sym.walk(v.e)) else "number"
         if kind is None:
             return
         tk = self.__dict__.setdefault("truth_kinds", {})
@@ -2032,6 +2033,12 @@ class Interp:
         """d = {K(t): V(t) for t in space}; d[key] with key = K(x) for an index-valued sub-expression x of key is V(x)
         (the table is assumed to have distinct keys: a grid, an enumeration)"""
         kexpr, vexpr, iv, sp = km
+        if key[0] == "at" and len(key[3]) == 1 and isinstance(key[3][0], Expr):
+            # the key was read from a table at a known position: if that table's formula is the key formula, invert
+            c = key[3][0]
+            k2 = sym.subst_ivar_expr(kexpr, iv, c)
+            if k2 is not None and (sym.equal(k2, key[2]) or (k2[0] == "at" and sym.equal(k2[2], key[2]))):
+                return sym.subst_ivar_expr(vexpr, iv, c)
         cands = [sym.IV(i) for i in sorted(sym.free_ivars(key))]
         for x in sym.walk(key):
             if x[0] == "red" and x[1] in ("argmin", "argmax"):
